@@ -1,5 +1,6 @@
 """C02 -- message stream integrity under arbitrary segmentation (spec/Stream.tla)."""
 import json
+import os
 import vlib
 
 PID = "C02"
@@ -107,6 +108,10 @@ def nontrivial(recs):
     return got and wrapped
 
 
+def fix_kind(beh):
+    beh[0]["arg"]["kind"] = "s5"
+
+
 def build():
     return vlib.build_driver("stream", ["stream.c"])
 
@@ -121,26 +126,26 @@ def run(tier):
     fair = vlib.tlc("MC_Stream", "Fair_Stream.cfg", tag="Fair_Stream")
     ck.add_tlc(fair, "liveness Fair_Stream.cfg")
 
-    # A: every transition of the bounded model replayed (scaled codec s5 and s5r)
-    gen = vlib.tlc("Gen_Stream", cfg["gen"], workers=4)
-    if gen.error or gen.violation:
-        raise vlib.MachineryError("behaviour export failed: %s %s" % (gen.error, gen.violation))
-    behs = vlib.parse_behaviours(gen.out)
-    for b in behs:
-        b[0]["arg"]["kind"] = "s5"
-    recs, _ = vlib.run_driver(exe, vlib.to_script(behs), timeout=1200)
-    mms = vlib.compare(behs, recs)
-    for mm in mms:
-        ck.violation(signature(mm["step"], mm["why"]), {"binding": "A(replay)", "behaviour": behs[mm["b"]], "step": mm["i"],
-                                                       "why": mm["why"], "record": mm["rec"]})
-    nt = set()
-    by = vlib.group_records(recs)
-    for b, beh in enumerate(behs):
-        if nontrivial(by.get(b, [])):
-            nt.add(json.dumps([(s["a"], s.get("arg")) for s in beh], sort_keys=True))
-    ck.cov["evaluations"] += len(behs)
-    ck.notes["replayed_behaviours"] = len(behs)
-    ck.notes["replay_mismatches"] = len(mms)
+    # A: every transition of the bounded model replayed (scaled codec s5), streamed in parallel chunks
+    dump = os.path.join(vlib.ensure(os.path.join(vlib.WORK, PID)), "gen-%d.out" % os.getpid())
+    try:
+        gen = vlib.tlc_to_file("Gen_Stream", cfg["gen"], dump)
+        if gen.error:
+            raise vlib.MachineryError("behaviour export failed: %s" % gen.error)
+        rp = vlib.replay_file(dump, exe, fix=fix_kind, nontrivial=nontrivial)
+    finally:
+        if os.path.exists(dump):
+            os.unlink(dump)
+    for mm in rp["details"]:
+        ck.violation(signature(mm["st"], mm["why"]), {"binding": "A(replay)", "behaviour": mm["behaviour"], "step": mm["step"],
+                                                     "why": mm["why"], "record": mm["record"]})
+    nt = set(rp["nontrivial"])
+    ck.cov["evaluations"] += rp["n"]
+    ck.cov["transitions"] += gen.generated
+    ck.notes["replayed_behaviours"] = rp["n"]
+    ck.notes["replay_mismatches"] = rp["mismatches"]
+    if not rp["n"]:
+        raise vlib.MachineryError("no behaviours exported")
 
     # B: recorded runs with the shipped codecs validated by TLC
     hist = gen_histories(ck, cfg["nhist"], cfg["nmsg"])
@@ -202,7 +207,7 @@ def run(tier):
                       "block-filling and block-crossing ones; piece sizes; ring shapes) replayed into the real queues with the block-code-5 "
                       "codec; B: seeded schedules (bytewise / mixed / bulk cuts) with the shipped framings recorded and validated by TLC. "
                       "Non-trivial = at least one message was received and one of the two rings was wrapped at some step; distinct by schedule.")
-    ck.cov["samples"] = [vlib.sample_repr(behs[len(behs) // 2]), [(s["a"], (s["arg"] if s["a"] != "start" else {"len": len(s["arg"]["data"])})) for s in hist[0][:14]]]
+    ck.cov["samples"] = rp["samples"][:1] + [[(s["a"], (s["arg"] if s["a"] != "start" else {"len": len(s["arg"]["data"])})) for s in hist[0][:14]]]
     ck.assumptions = ["TLC/SANY, CommunityModules Json/IOUtils", "drv/stream.c reproduces the call sequences of mpt_stream_push/flush/poll/dispatch",
                       "frames of COBS/R and ZPE framings are judged by delimiter counting here (byte-level: C01)",
                       "bounded model: 2 messages, block code 5"]
